@@ -99,7 +99,19 @@ fn placements(spin: &[String]) -> Vec<(&'static str, Vec<String>, Vec<String>)> 
     let mut g = vec![s("pgen = ||"), s("  yield 1")];
     g.extend(indent(spin, 1));
     g.push(s("  yield 2"));
-    out.push(("generator-body", g, vec![s("for pv in pgen()"), s("  pvv = pv")]));
+    out.push(("generator-body", g.clone(), vec![s("for pv in pgen()"), s("  pvv = pv")]));
+    // the generator consumed through adaptors that pull several elements per output
+    out.push(("generator-body-via-skip", g.clone(), vec![s("for pv in pgen().skip(1)"), s("  pvv = pv")]));
+    out.push(("generator-body-via-step", g.clone(), vec![s("pres = pgen().step(2).to_tuple()")]));
+    out.push(("generator-body-via-chunks", g.clone(), vec![s("pres = pgen().chunks(2).to_tuple()")]));
+    out.push(("generator-body-via-last", g, vec![s("pres = pgen().last()")]));
+    // the spin comes before the first yield and the first value is skipped by the consumer
+    let mut g2 = vec![s("pgen2 = ||")];
+    g2.extend(indent(spin, 1));
+    g2.push(s("  yield 1"));
+    g2.push(s("  yield 2"));
+    out.push(("generator-spin-first-via-skip", g2.clone(), vec![s("pres = pgen2().skip(1).to_tuple()")]));
+    out.push(("generator-spin-first-via-skip-reversed", g2, vec![s("pres = pgen2().skip(1).next()")]));
     // callbacks of native adaptors
     for (name, call) in [
         ("each-to-list", "(1, 2).each(pcb).to_list()"),
@@ -208,7 +220,7 @@ fn judge_spin(obs: &Obs, limit_ms: u64, slack: f64) -> Verdict {
 pub fn run(args: &Args) -> i32 {
     install_quiet_panic_hook();
     let tier = args.tier;
-    let limits: Vec<u64> = tier.pick(vec![1, 3, 10, 30], vec![1, 3, 10, 30, 100, 300]);
+    let limits: Vec<u64> = tier.pick(vec![1, 3, 10], vec![1, 3, 10, 30, 100, 300]);
     let slack = 1.0;
     if let Some(path) = &args.replay {
         let text = std::fs::read_to_string(path).unwrap_or_default();
@@ -378,7 +390,7 @@ pub fn run(args: &Args) -> i32 {
     report.cov("max_timeout_time_over_limit", max_ratio);
     report.cov("terminating_controls", n_controls);
     report.cov("exhaustive", true);
-    report.cov("rule", format!("{} spin shapes x 23 placements x 5 try/catch wrappings x limits {:?} ms; virtual clock: 100 ns per executed instruction (hook H3), tick budget 10 x limit; oracle: ErrorKind::Timeout before virtual time limit x {:.1}, no catch block output, H1 state clean and a probe script runs afterwards; plus terminating controls under 4 limits vs no limit. distinct_nontrivial = distinct (outcome, time/limit decile, spin, top-level?)", spins().len(), limits, 1.0 + slack));
+    report.cov("rule", format!("{} spin shapes x 29 placements x 5 try/catch wrappings x limits {:?} ms; virtual clock: 100 ns per executed instruction (hook H3), tick budget 10 x limit; oracle: ErrorKind::Timeout before virtual time limit x {:.1}, no catch block output, H1 state clean and a probe script runs afterwards; plus terminating controls under 4 limits vs no limit. distinct_nontrivial = distinct (outcome, time/limit decile, spin, top-level?)", spins().len(), limits, 1.0 + slack));
     report.cov("samples", json!([cases[0].3, cases[n_cases / 2].3, cases[n_cases - 1].3]));
     report.assume("virtual time removes only the dependence on host speed: the runtime's own deadline / adaptive interval logic runs unmodified on the virtual Instant; real-time slack on a loaded host is not decided");
     report.assume("spins that stay inside one native call are excluded by the property");
